@@ -19,7 +19,8 @@ EXPLANATION = (
     'parameters minus meta/visual (reviewed exception: origin of PolygonPixelRegion, folded into vertices) and each _params name '
     'is stored by the constructor; (R4) PixCoord.copy and Meta.copy are deep; (R5) Regions.__getitem__ (slice) and Regions.copy '
     'bind a new list object, never self.regions itself. Not decided: Quantity/SkyCoord comparison semantics (astropy).')
-EXPLANATION_ADDED = (' (R2 is decided as a truth table over the comparison atoms of the outcomes: equal fields -> equal; a difference in any one field, another class, or a comparison that raises -> unequal.) (R5 is decided on the list term of the returned object.) (R6) the objects the DS9 reader itself stores in visual (point symbol markers) survive deepcopy as equal values.')
+EXPLANATION_ADDED = (' (R2 is decided as a truth table over the comparison atoms of the outcomes: equal fields -> equal; a difference in any one field, another class, or a comparison that raises -> unequal.) (R5 is decided on the list term of the returned object.) (R6) the objects the DS9 reader itself stores in visual (point symbol markers) survive deepcopy as equal values.'
+                     ' In R2 side tests on a field (its type, its unit) may go either way and a comparison within a tolerance counts as passable by differing values; the angular parameters are Quantities on both sides.')
 EXPLANATION += EXPLANATION_ADDED
 TRUSTED = ['copy.deepcopy yields an equal object sharing no mutable state', 'list slicing / list.copy() build a new list']
 ASSUMPTIONS = ['descriptor __set__ stores the value it validated (C17.R2)']
